@@ -769,6 +769,72 @@ func admissionInsideRelease(idx int64, r *rand.Rand) {
 	rt.Distinct(fmt.Sprintf("air|%d|%d|%v", L, seen, outcomes[:8]))
 }
 
+// handoffAtTheTimeout: a queue limiter over the default limiter; in every round the holder completes (successfully) at
+// the very instant the queued caller's backlog time-out fires, the hand-off paused at its schedule point.  Whoever ends
+// up with the unit completes successfully too.  Nobody ever reports a drop, so no window handed to the algorithm may
+// carry the drop flag.
+func handoffAtTheTimeout(t *testing.T, idx int64, r *rand.Rand) {
+	rec := inject.NewScriptedLimit(1, func(int) int { return 1 })
+	T := time.Duration(1+r.IntN(5)) * time.Millisecond
+	ord := []limiter.QueueOrdering{limiter.OrderingFIFO, limiter.OrderingLIFO}[r.IntN(2)]
+	yields := []int{50, 500, 5000}[r.IntN(3)]
+	var bad *inject.RecSample
+	grantedAtTimeout, refusedAtTimeout := 0, 0
+	bubble(t, func(t *testing.T) {
+		dl, err := limiter.NewDefaultLimiter(rec, 1, 1, 0, 10, strategy.NewSimpleStrategy(1), limit.NoopLimitLogger{}, core.EmptyMetricRegistryInstance)
+		if err != nil {
+			panic(err)
+		}
+		q := limiter.NewQueueBlockingLimiterFromConfig(dl, limiter.QueueLimiterConfig{Ordering: ord, MaxBacklogSize: 5, MaxBacklogTimeout: T})
+		limiter.SetVerifHook(func(name string) {
+			if name == "queue.before_handoff" {
+				for i := 0; i < yields; i++ {
+					runtime.Gosched()
+				}
+			}
+		})
+		defer limiter.SetVerifHook(nil)
+		for round := 0; round < 60; round++ {
+			holder, ok := q.Acquire(context.Background())
+			if !ok {
+				panic("c09 handoffAtTheTimeout: unit refused")
+			}
+			var wl core.Listener
+			var wok bool
+			var done atomic.Bool
+			go func() { wl, wok = q.Acquire(context.Background()); done.Store(true) }()
+			synctest.Wait()
+			time.Sleep(T) // the waiter's timer fires now ...
+			holder.OnSuccess() // ... and so does the release
+			synctest.Wait()
+			if done.Load() && wok && wl != nil {
+				grantedAtTimeout++
+				time.Sleep(time.Duration(1+r.IntN(1000)) * time.Microsecond)
+				wl.OnSuccess()
+			} else {
+				refusedAtTimeout++
+			}
+			synctest.Wait()
+			time.Sleep(time.Microsecond)
+		}
+		for _, d := range rec.Samples() {
+			if d.Drop && bad == nil {
+				dd := d
+				bad = &dd
+			}
+		}
+	})
+	rt.Count("handoffs_at_the_timeout_instant/caller-granted", int64(grantedAtTimeout))
+	rt.Count("handoffs_at_the_timeout_instant/caller-refused", int64(refusedAtTimeout))
+	rt.Count("windows_delivered_in_handoff_at_timeout_cases", int64(rec.Count()))
+	if bad != nil {
+		rt.Violation("C09/default/window-carries-a-drop-nobody-reported", idx, rt.J{"ordering": ord, "backlog_timeout": T.String(), "delivered": *bad,
+			"callers_granted_at_their_timeout": grantedAtTimeout, "callers_refused_at_their_timeout": refusedAtTimeout})
+		return
+	}
+	rt.Distinct(fmt.Sprintf("hat|%s|%v|%d|%d", ord, T, grantedAtTimeout, rec.Count()))
+}
+
 func TestCheck(t *testing.T) {
 	rt.Cases(6000, 600000, func(idx int64) {
 		r := rt.CaseRand(9, idx)
@@ -777,6 +843,8 @@ func TestCheck(t *testing.T) {
 			windowedConcurrent(idx, r)
 		} else if idx%16 == 7 {
 			admissionInsideRelease(idx, r)
+		} else if idx%16 == 11 {
+			handoffAtTheTimeout(t, idx, r)
 		} else if idx%8 == 1 {
 			simultaneousCase(t, idx, r)
 		} else if idx%4 == 0 {
